@@ -26,7 +26,7 @@ c.ensures('types-are-digits', 'implies(encoded_payload is not None, forall(lambd
           '0 <= self.packets[k].packet_type and self.packets[k].packet_type <= 9, 0, len(self.packets)))')
 c.modifies('self.packets')   # fields of the freshly built packets are outside every frame
 
-c = REG.contract('payload.Payload.decode', props=['C02', 'C04', 'C14'])
+c = REG.contract('payload.Payload.decode', props=['C02', 'C04', 'C14', 'C10'])
 c.param('self', Ref('Payload')).param('encoded_payload', STR)
 c.raises('ValueError', 'len(encoded_payload) > 0 and '
          'len(payload_body(encoded_payload).split("\\x1e")) > 16', label='too-many',
@@ -58,7 +58,7 @@ c.param('self', Ref('Payload')).param('jsonp_index', [NONE, INT])
 c.returns(STR)
 c.requires('forall(lambda k: packet_ok(self.packets[k]), 0, len(self.packets))', 'packets-ok')
 c.ensures('joined', 'implies(jsonp_index is None, '
-          'result == payload_text(self.packets, len(self.packets)))', props=['C02'])
+          'result == payload_text(self.packets, len(self.packets)))', props=['C02', 'C10'])
 c.ensures('jsonp-is-one-call-with-the-payload-as-string-literal',
           'implies(jsonp_index is not None, result == jsonp_body(jsonp_index, '
           'payload_text(self.packets, len(self.packets))))', props=['C19'])
